@@ -770,6 +770,17 @@ func (b *skelBuilder) skeletons(tier string) []*skeleton {
 		go func(sk *skeleton) {
 			defer wg.Done()
 			defer func() { <-sem }()
+			defer func() {
+				// a generated text the model reader cannot digest is a failed instantiation, not a crash of the checker
+				if x := recover(); x != nil {
+					if sk.Errs == nil {
+						sk.Errs = map[bool][]string{}
+					}
+					msg := fmt.Sprintf("the instantiated template has a shape the reader of generated code does not understand (%v)", x)
+					sk.Errs[false] = append(sk.Errs[false], msg)
+					sk.Errs[true] = append(sk.Errs[true], msg)
+				}
+			}()
 			b.check(sk)
 		}(sk)
 	}
